@@ -241,6 +241,16 @@ class GaussianMerge(Compiler):
                 if not displacement_mapping:
                     # Add edge from gaussian transform to successor operation
                     self.new_DAG.add_edge(gaussian_transform[0], successor_op)
+                else:
+                    # The successor has to stay behind the merged block: behind the displacement
+                    # gates on its qumodes, or behind the transform if there are none
+                    d_gates = [
+                        displacement_mapping[qumode]
+                        for qumode in get_qumodes_operated_upon(successor_op)
+                        if qumode in displacement_mapping
+                    ]
+                    for gate in d_gates or [gaussian_transform[0]]:
+                        self.new_DAG.add_edge(gate, successor_op)
 
     def add_gaussian_pre_and_succ_gates(
         self, gaussian_transform, merged_gaussian_ops, displacement_mapping
